@@ -440,6 +440,18 @@ def b_hotp(lib, rng, n, reloc):
         want = lib.rd(o, digit + 1)
         _maybe_reloc(st, rng, reloc)
         if rng.random() < 0.5:
+            # a wrong password must be refused and must leave the counter where it was (botp.h: the counter is
+            # incremented only on a successful check)
+            wrong = bytearray(want)
+            k = rng.randrange(digit)
+            wrong[k] = ord("0") + (wrong[k] - ord("0") + 1 + rng.randrange(9)) % 10
+            if lib.botpHOTPStepV(lib.mk(bytes(wrong)), st.p):
+                bad.append("verify-accepts-wrong")
+            g0 = lib.alloc(8)
+            lib.botpHOTPStepG(g0, st.p)
+            if lib.rd(g0, 8) != cb:
+                bad.append("counter-after-failed-verify")
+        if rng.random() < 0.5:
             o2 = lib.alloc(digit + 1)
             lib.botpHOTPStepR(o2, st.p)
             if lib.rd(o2, digit + 1) != want:
